@@ -83,7 +83,14 @@ def gen_case(rng):
     fills = [rng.choice(['00', 'ff', 'a5', 'rnd']) for _ in vals]
     seeds = [rng.randrange(1 << 30) for _ in vals]
     forms = [rng.choice(['var', 'const', 'ptr']) for _ in vals]
-    return dict(type=t, width=w, members=mem, vals=vals, fills=fills, seeds=seeds, forms=forms)
+    # initialiser probes: values for the named members, as a positional prefix and as a shuffled designated subset
+    nm = [m for m in mem if m[0] != 'bf0']
+    pool = [0, 1, -1, 2, 3, 5, 127, 128, 255, 256, 32767, 65535, (1 << 31) - 1, 1 << 31, (1 << 32) - 1, 1 << 32,
+            (1 << 63) - 1, -(1 << 63), rng.randint(-(1 << 63), (1 << 63) - 1), rng.randint(0, 1 << 16)]
+    ivals = [rng.choice(pool + [(1 << m[2]) - 1, 1 << (m[2] - 1)] if m[0] == 'bf' else pool) for m in nm]
+    npos = rng.randint(1, len(nm))
+    des = rng.sample(range(len(nm)), rng.randint(1, len(nm)))
+    return dict(type=t, width=w, members=mem, vals=vals, fills=fills, seeds=seeds, forms=forms, ivals=ivals, npos=npos, des=des)
 
 
 def struct_text(k, c):
@@ -122,8 +129,14 @@ def probe_unit(cases):
     s = [PRELUDE]
     for k, c in enumerate(cases):
         s += struct_text(k, c)
-        s.append('static long long vals%d[] = { %s };' % (k, ', '.join(lit(v) for v in c['vals'])))
+        s.append('static long long vals%d[] = { %s };' % (k, ', '.join(lit(v) for v in c['vals']) or '0'))
         s.append('static long long setp%d (struct S%d *p, long long v) { return p->f = v; }' % (k, k))
+        nm = named(c)
+        mname = lambda m: m[3] if m[0] == 'bf' else m[2]
+        pos = '{ %s }' % ', '.join(lit(v) for v in c['ivals'][:c['npos']])
+        des = '{ %s }' % ', '.join('.%s = %s' % (mname(nm[i]), lit(c['ivals'][i])) for i in c['des'])
+        if 'static' in c.get('iforms', ('static', 'auto')):
+            s.append('static struct S%d sp%d = %s;\nstatic struct S%d sd%d = %s;' % (k, k, pos, k, k, des))
         s.append('static void t%d (void) {' % k)
         s.append('  union U%d u; int n = (int) sizeof u.b; long long r;' % k)
         for mi, m in enumerate(named(c)):
@@ -143,6 +156,11 @@ def probe_unit(cases):
             else:
                 s.append('  r = setp%d (&u.s, vals%d[%d]);' % (k, k, j))
             s.append('  dump ("V", %d, %d, (u64) r, (u64) (long long) u.s.f, u.b, n);' % (k, j))
+        if 'static' in c.get('iforms', ('static', 'auto')):
+            s.append('  dump ("I", %d, 0, 0, 0, (const unsigned char *) &sp%d, n);' % (k, k))
+            s.append('  dump ("I", %d, 1, 0, 0, (const unsigned char *) &sd%d, n);' % (k, k))
+        s.append('  { struct S%d ap = %s; dump ("I", %d, 2, 0, 0, (const unsigned char *) &ap, n); }' % (k, pos, k))
+        s.append('  { struct S%d ad = %s; dump ("I", %d, 3, 0, 0, (const unsigned char *) &ad, n); }' % (k, des, k))
         s.append('}')
     s.append('int main (void) {')
     for k in range(len(cases)):
@@ -166,16 +184,69 @@ def parse_out(out):
     N, V = {}, {}
     for l in out.split('\n'):
         w = l.split()
-        if len(w) == 6 and w[0] in ('N', 'V'):
+        if len(w) == 6 and w[0] in ('N', 'V', 'I'):
             try:
                 k, j, r, rb, b = int(w[1]), int(w[2]), int(w[3], 16), int(w[4], 16), bytes.fromhex(w[5])
             except ValueError:
                 continue
             if w[0] == 'N':
                 N[(k, j)] = b
+            elif w[0] == 'I':
+                V[(k, 'I', j)] = b
             else:
                 V[(k, j)] = (r, rb, b)
     return N, V
+
+
+INIT_FORMS = ['static object, positional initialiser', 'static object, designated initialiser',
+              'automatic object, positional initialiser', 'automatic object, designated initialiser']
+
+
+def member_extents(c, k, N):
+    """[(A, width)] of the named members from the reference run (bits set by storing all-ones), or None"""
+    out = []
+    for mi, m in enumerate(named(c)):
+        b = N.get((k, mi))
+        if b is None:
+            return None
+        x = int.from_bytes(b, 'little')
+        if x == 0:
+            return None
+        A = (x & -x).bit_length() - 1
+        w = x.bit_length() - A
+        if x != ((1 << w) - 1) << A:
+            return None
+        out.append((A, w))
+    return out
+
+
+def init_expect(c, ext, form):
+    """named bits of the object after initialisation form 0..3 (C11 6.7.9: members without initialiser are
+    zero; each value converted to the member's type: modulo 2^width, != 0 for _Bool)"""
+    nm = named(c)
+    idx = list(range(c['npos'])) if form in (0, 2) else c['des']
+    M = 0
+    for i in idx:
+        A, w = ext[i]
+        v = c['ivals'][i]
+        bits = (1 if v != 0 else 0) if (nm[i][0] == 'bf' and TYPES[nm[i][1]][4]) else v % (1 << w)
+        M = (M & ~(((1 << w) - 1) << A)) | (bits << A)
+    return M
+
+
+def mixed_units(c, ext):
+    """bit-fields whose storage units have different sizes and share bytes (the shape of the known finding
+    prog:corpus:c07_prog_mixed_bitfield_init.c)"""
+    us = []
+    for m, (A, w) in zip(named(c), ext):
+        if m[0] == 'bf':
+            S = TYPES[m[1]][1]
+            us.append((S, (A // S) * (S // 8), (A // S) * (S // 8) + S // 8))
+    for i in range(len(us)):
+        for j in range(i):
+            if us[i][0] != us[j][0] and us[i][1] < us[j][2] and us[j][1] < us[i][2]:
+                return True
+    return False
 
 
 def layout(c, k, N):
